@@ -1,10 +1,22 @@
 package main
 
 import (
+	"crypto/sha1"
+	"encoding/json"
 	"flag"
 	"fmt"
+	"go/ast"
+	"go/parser"
+	"go/token"
 	"os"
+	"os/exec"
+	"path/filepath"
+	"regexp"
+	"runtime"
+	"sort"
+	"strconv"
 	"strings"
+	"sync"
 	"time"
 
 	"golang.org/x/tools/go/packages"
@@ -12,97 +24,953 @@ import (
 	"golang.org/x/tools/go/ssa/ssautil"
 )
 
-func main() {
-	pkgPath := flag.String("pkg", "./raftpb", "package pattern (relative to /repo)")
-	overlay := flag.String("overlay", "", "harness file")
-	as := flag.String("as", "", "virtual path of harness file")
-	entry := flag.String("entry", "", "harness function(s), comma separated")
-	inits := flag.String("init", "", "package paths whose init to run, comma separated")
-	verbose := flag.Bool("v", false, "verbose")
-	maxSteps := flag.Int("steps", 200000, "step budget per path")
-	smtlog := flag.String("smtlog", "", "log smt to file")
-	flag.Parse()
+var (
+	verifDir = envOr("VERIF_DIR", "/verif")
+	repoDir  = envOr("VERIF_REPO", "/repo")
+)
 
-	t0 := time.Now()
-	cfg := &packages.Config{
-		Mode: packages.LoadAllSyntax,
-		Dir:  "/repo",
-		Env:  append(os.Environ(), "GOFLAGS=-mod=mod", "GOPROXY=off", "GOSUMDB=off"),
+func envOr(k, d string) string {
+	if v := os.Getenv(k); v != "" {
+		return v
 	}
-	if *overlay != "" {
-		b, err := os.ReadFile(*overlay)
-		if err != nil {
-			panic(err)
+	return d
+}
+
+// ---------------------------------------------------------------------------
+// harness discovery
+
+type HarnessSpec struct {
+	Name      string
+	Props     []string
+	Tiers     []string
+	Steps     int
+	Workers   int
+	Switches  int
+	Policy    Policy
+	Replay    string // native | symbolic
+	Bounds    []string
+	TimeoutS  int
+	QueryMs   int
+}
+
+type Group struct {
+	Dir      string // repo-relative package dir ("." for root)
+	PkgName  string
+	Files    []string // absolute harness file paths
+	Inits    []string
+	Scales   [][3]string // file, const name, new value
+	Entries  []*HarnessSpec
+	Bounds   []string
+	Assumes  []string
+	Stubs    []string
+}
+
+func splitAttrs(s string) map[string]string {
+	out := map[string]string{}
+	i := 0
+	for i < len(s) {
+		for i < len(s) && (s[i] == ' ' || s[i] == '\t') {
+			i++
 		}
-		cfg.Overlay = map[string][]byte{*as: b}
-	}
-	if cfg.Overlay == nil {
-		cfg.Overlay = map[string][]byte{}
-	}
-	for _, kv := range strings.Split(os.Getenv("EXTRA_OVERLAY"), ",") {
-		if i := strings.Index(kv, "="); i > 0 {
-			b, err := os.ReadFile(kv[i+1:])
-			if err != nil {
-				panic(err)
+		j := i
+		for j < len(s) && s[j] != '=' && s[j] != ' ' {
+			j++
+		}
+		if j >= len(s) || s[j] != '=' {
+			if j > i {
+				out[s[i:j]] = "true"
 			}
-			cfg.Overlay[kv[:i]] = b
+			i = j
+			continue
+		}
+		key := s[i:j]
+		j++
+		var val string
+		if j < len(s) && s[j] == '"' {
+			k := j + 1
+			for k < len(s) && s[k] != '"' {
+				k++
+			}
+			val = s[j+1 : k]
+			i = k + 1
+		} else {
+			k := j
+			for k < len(s) && s[k] != ' ' {
+				k++
+			}
+			val = s[j:k]
+			i = k
+		}
+		if old, ok := out[key]; ok && (key == "allow" || key == "forbid" || key == "reach" || key == "bounds") {
+			sep := "|"
+			if key == "reach" {
+				sep = ","
+			}
+			val = old + sep + val
+		}
+		out[key] = val
+	}
+	return out
+}
+
+func discover() (map[string]*Group, error) {
+	groups := map[string]*Group{}
+	root := filepath.Join(verifDir, "harness")
+	err := filepath.Walk(root, func(p string, info os.FileInfo, err error) error {
+		if err != nil {
+			return err
+		}
+		if info.IsDir() {
+			if strings.HasPrefix(info.Name(), "_") {
+				return filepath.SkipDir
+			}
+			return nil
+		}
+		if !strings.HasSuffix(p, ".go") {
+			return nil
+		}
+		rel, _ := filepath.Rel(root, filepath.Dir(p))
+		dir := rel
+		if rel == "ROOT" {
+			dir = "."
+		}
+		g := groups[dir]
+		if g == nil {
+			g = &Group{Dir: dir}
+			groups[dir] = g
+		}
+		g.Files = append(g.Files, p)
+		fset := token.NewFileSet()
+		f, err := parser.ParseFile(fset, p, nil, parser.ParseComments)
+		if err != nil {
+			return fmt.Errorf("parse %s: %v", p, err)
+		}
+		g.PkgName = f.Name.Name
+		for _, cg := range f.Comments {
+			for _, c := range cg.List {
+				t := c.Text
+				switch {
+				case strings.HasPrefix(t, "//vcheck:init "):
+					for _, ip := range strings.Split(strings.TrimSpace(t[len("//vcheck:init "):]), ",") {
+						if ip = strings.TrimSpace(ip); ip != "" && !contains(g.Inits, ip) {
+							g.Inits = append(g.Inits, ip)
+						}
+					}
+				case strings.HasPrefix(t, "//vcheck:scale "):
+					fs := strings.Fields(t[len("//vcheck:scale "):])
+					if len(fs) == 3 {
+						g.Scales = append(g.Scales, [3]string{fs[0], fs[1], fs[2]})
+					}
+				case strings.HasPrefix(t, "//vcheck:bounds "):
+					g.Bounds = append(g.Bounds, strings.TrimSpace(t[len("//vcheck:bounds "):]))
+				case strings.HasPrefix(t, "//vcheck:assume "):
+					g.Assumes = append(g.Assumes, strings.TrimSpace(t[len("//vcheck:assume "):]))
+				case strings.HasPrefix(t, "//vcheck:stub "):
+					g.Stubs = append(g.Stubs, strings.TrimSpace(t[len("//vcheck:stub "):]))
+				}
+			}
+		}
+		for _, d := range f.Decls {
+			fd, ok := d.(*ast.FuncDecl)
+			if !ok || fd.Recv != nil || !strings.HasPrefix(fd.Name.Name, "VHarness_") {
+				continue
+			}
+			hs := &HarnessSpec{Name: fd.Name.Name, Tiers: []string{"quick", "thorough"}, Steps: 400000, Workers: 8, Switches: 3, Replay: "native"}
+			parts := strings.Split(fd.Name.Name, "_")
+			if len(parts) >= 2 {
+				hs.Props = []string{parts[1]}
+			}
+			attrs := ""
+			if fd.Doc != nil {
+				for _, c := range fd.Doc.List {
+					if strings.HasPrefix(c.Text, "//vcheck:") {
+						attrs += " " + strings.TrimPrefix(c.Text, "//vcheck:")
+					}
+				}
+			}
+			am := splitAttrs(attrs)
+			for k, v := range am {
+				switch k {
+				case "props":
+					for _, x := range strings.Split(v, ",") {
+						if !contains(hs.Props, x) {
+							hs.Props = append(hs.Props, x)
+						}
+					}
+				case "tier":
+					hs.Tiers = strings.Split(v, ",")
+				case "steps":
+					hs.Steps, _ = strconv.Atoi(v)
+				case "workers":
+					hs.Workers, _ = strconv.Atoi(v)
+				case "switches":
+					hs.Switches, _ = strconv.Atoi(v)
+				case "reach":
+					hs.Policy.Reach = strings.Split(v, ",")
+				case "allow":
+					for _, x := range strings.Split(v, "|") {
+						hs.Policy.AllowPanics = append(hs.Policy.AllowPanics, regexp.MustCompile(x))
+					}
+				case "forbid":
+					for _, x := range strings.Split(v, "|") {
+						hs.Policy.ForbidPanics = append(hs.Policy.ForbidPanics, regexp.MustCompile(x))
+					}
+				case "runtime":
+					hs.Policy.RuntimePanics = v
+				case "deadlock":
+					hs.Policy.Deadlock = v
+				case "replay":
+					hs.Replay = v
+				case "bounds":
+					hs.Bounds = append(hs.Bounds, strings.Split(v, "|")...)
+				case "timeout":
+					hs.TimeoutS, _ = strconv.Atoi(v)
+				case "queryms":
+					hs.QueryMs, _ = strconv.Atoi(v)
+				default:
+					return fmt.Errorf("%s: unknown vcheck attribute %q on %s", p, k, fd.Name.Name)
+				}
+			}
+			g.Entries = append(g.Entries, hs)
+		}
+		return nil
+	})
+	return groups, err
+}
+
+func contains(l []string, s string) bool {
+	for _, x := range l {
+		if x == s {
+			return true
 		}
 	}
-	pkgs, err := packages.Load(cfg, *pkgPath)
-	if err != nil {
-		panic(err)
+	return false
+}
+
+// ---------------------------------------------------------------------------
+// loading
+
+type Loaded struct {
+	prog    *ssa.Program
+	pkg     *ssa.Package
+	overlay map[string][]byte
+	scaled  []string
+	loadS   float64
+}
+
+func goEnv() []string {
+	return append(os.Environ(), "GOFLAGS=-mod=mod", "GOPROXY=off", "GOSUMDB=off", "GOTOOLCHAIN=local")
+}
+
+func buildOverlay(g *Group, native bool) (map[string][]byte, []string, error) {
+	ov := map[string][]byte{}
+	var scaled []string
+	base := filepath.Join(repoDir, g.Dir)
+	ov[filepath.Join(base, "zz_verif_prelude.go")] = []byte(strings.Replace(preludeSrc, "PKGNAME", g.PkgName, 1))
+	for _, f := range g.Files {
+		b, err := os.ReadFile(f)
+		if err != nil {
+			return nil, nil, err
+		}
+		ov[filepath.Join(base, "zz_verif_"+filepath.Base(f))] = b
 	}
-	if packages.PrintErrors(pkgs) > 0 {
-		os.Exit(2)
+	for _, sc := range g.Scales {
+		p := filepath.Join(repoDir, sc[0])
+		b, err := os.ReadFile(p)
+		if err != nil {
+			return nil, nil, fmt.Errorf("scale: %v", err)
+		}
+		re := regexp.MustCompile(`(?m)^(\s*(?:const\s+|var\s+)?` + regexp.QuoteMeta(sc[1]) + `\s*(?:[A-Za-z0-9_.]+\s*)?=\s*)([^\n]+)$`)
+		m := re.FindSubmatchIndex(b)
+		if m == nil {
+			return nil, nil, fmt.Errorf("scale: definition of %s not found in %s", sc[1], sc[0])
+		}
+		old := string(b[m[4]:m[5]])
+		nb := append(append(append([]byte(nil), b[:m[4]]...), []byte(sc[2])...), b[m[5]:]...)
+		ov[p] = nb
+		scaled = append(scaled, fmt.Sprintf("scaled: %s in %s: %s -> %s", sc[1], sc[0], strings.TrimSpace(old), sc[2]))
+	}
+	return ov, scaled, nil
+}
+
+func load(g *Group) (*Loaded, error) {
+	t0 := time.Now()
+	ov, scaled, err := buildOverlay(g, false)
+	if err != nil {
+		return nil, err
+	}
+	cfg := &packages.Config{Mode: packages.LoadAllSyntax, Dir: repoDir, Env: goEnv(), Overlay: ov}
+	pat := "./" + g.Dir
+	if g.Dir == "." {
+		pat = "."
+	}
+	pkgs, err := packages.Load(cfg, pat)
+	if err != nil {
+		return nil, err
+	}
+	var errs []string
+	packages.Visit(pkgs, nil, func(p *packages.Package) {
+		for _, e := range p.Errors {
+			errs = append(errs, e.Error())
+		}
+	})
+	if len(errs) > 0 {
+		if len(errs) > 8 {
+			errs = errs[:8]
+		}
+		return nil, fmt.Errorf("package errors: %s", strings.Join(errs, "; "))
 	}
 	prog, spkgs := ssautil.AllPackages(pkgs, ssa.InstantiateGenerics)
 	prog.Build()
-	fmt.Printf("load+ssa %v\n", time.Since(t0))
-	pkg := spkgs[0]
+	return &Loaded{prog: prog, pkg: spkgs[0], overlay: ov, scaled: scaled, loadS: time.Since(t0).Seconds()}, nil
+}
 
-	for _, en := range strings.Split(*entry, ",") {
-		fn := pkg.Func(en)
-		if fn == nil {
-			fmt.Println("no such function", en)
-			os.Exit(2)
+// defaultInits are standard-library packages whose package-level variables
+// (io.EOF, bytes.ErrTooLarge, ...) the interpreted code compares against.
+var defaultInits = []string{"io", "bytes", "bufio", "encoding/binary", "io/fs"}
+
+func initFuncs(prog *ssa.Program, list []string) ([]*ssa.Function, []string) {
+	var inits []*ssa.Function
+	var errs []string
+	for _, ip := range defaultInits {
+		if p := prog.ImportedPackage(ip); p != nil && !contains(list, ip) {
+			inits = append(inits, p.Func("init"))
 		}
-		t1 := time.Now()
-		termTab = map[string]*Term{}
-		e := &Engine{prog: prog, solver: NewSolver(), outcomes: map[string]int{}, reach: map[string]int{},
-			asserts: map[string]int{}, maxSteps: *maxSteps, funcsSeen: map[*ssa.Function]bool{}, verbose: *verbose}
-		if *smtlog != "" {
-			lf, _ := os.Create(*smtlog)
-			e.solver.log = lf
+	}
+	for _, ip := range list {
+		p := prog.ImportedPackage(ip)
+		if p == nil {
+			errs = append(errs, "init: no package "+ip)
+			continue
 		}
-		n := 0
-		st := &State{heap: map[int]Value{}, globals: map[*ssa.Global]int{}, nextObj: &n, locks: map[int]int{}, hashBuf: map[int][]Value{}, lockv: map[string]int{}, pools: map[int][]Value{}}
-		// run package inits
-		if *inits != "" {
-			for _, ip := range strings.Split(*inits, ",") {
-				p := prog.ImportedPackage(ip)
-				if p == nil {
-					fmt.Println("init: no package", ip)
-					os.Exit(2)
+		inits = append(inits, p.Func("init"))
+	}
+	return inits, errs
+}
+
+// ---------------------------------------------------------------------------
+// known findings
+
+type KnownFinding struct {
+	Property string              `json:"property"`
+	Harness  string              `json:"harness"`
+	ID       string              `json:"id"`
+	Where    map[string][]uint64 `json:"where,omitempty"` // variable base name -> admissible values
+	Text     string              `json:"text"`
+}
+type KnownFile struct {
+	Findings []KnownFinding `json:"findings"`
+	Fixed    []string       `json:"fixed"`
+}
+
+func loadKnown() KnownFile {
+	var kf KnownFile
+	b, err := os.ReadFile(filepath.Join(verifDir, "KNOWN_FINDINGS.json"))
+	if err == nil {
+		json.Unmarshal(b, &kf)
+	}
+	return kf
+}
+
+func (k KnownFinding) matches(prop string, v Violation) bool {
+	if k.Property != prop || k.Harness != v.Harness || k.ID != v.ID {
+		return false
+	}
+	for name, vals := range k.Where {
+		ok := false
+		for i, n := range v.Names {
+			if b := strings.Split(n, "!")[0]; b == name {
+				for _, x := range vals {
+					if x == v.Values[i] {
+						ok = true
+					}
 				}
-				e.pushCall(st, p.Func("init"), nil, nil, nil)
-				e.run(st)
-				if st.outcome != "return" {
-					fmt.Println("init of", ip, "ended with", st.outcome)
-					os.Exit(2)
-				}
-				st.outcome = ""
-				st.steps = 0
+				break // first variable of that name decides
 			}
 		}
-		e.pushCall(st, fn, nil, nil, nil)
-		e.explore(st)
-		fmt.Printf("== %s: paths %d forks %d queries %d solver %v wall %v funcs %d terms %d\n", en, e.paths, e.forks,
-			e.solver.Queries, e.solver.Time.Round(time.Millisecond), time.Since(t1).Round(time.Millisecond), len(e.funcsSeen), termSeq)
-		e.report()
-		fmt.Printf("  reach %v\n  asserts %v\n", e.reach, e.asserts)
-		for _, v := range e.viol {
-			fmt.Println("  " + v)
+		if !ok {
+			return false
 		}
-		e.solver.Close()
+	}
+	return true
+}
+
+// ---------------------------------------------------------------------------
+// replay
+
+type ReplayFile struct {
+	Property string            `json:"property"`
+	Harness  string            `json:"harness"`
+	Dir      string            `json:"dir"`
+	Kind     string            `json:"kind"`
+	ID       string            `json:"id"`
+	Mode     string            `json:"mode"`
+	Tier     int               `json:"tier"`
+	Values   []uint64          `json:"values"`
+	Names    []string          `json:"names"`
+	AllVars  map[string]uint64 `json:"all_vars"`
+	Events   []string          `json:"events"`
+}
+
+func panicKey(id string) string {
+	s := strings.TrimPrefix(id, "PANIC: ")
+	s = strings.TrimPrefix(s, "Panicf: ")
+	s = strings.TrimPrefix(s, "error(")
+	if i := strings.Index(s, "%"); i >= 0 {
+		s = s[:i]
+	}
+	s = strings.TrimSpace(s)
+	if strings.HasPrefix(s, "runtime error: nil pointer dereference") {
+		return "nil pointer dereference"
+	}
+	if strings.HasPrefix(s, "runtime error: ") {
+		return strings.TrimPrefix(s, "runtime error: ")
+	}
+	if len(s) > 40 {
+		s = s[:40]
+	}
+	return s
+}
+
+// nativeReplay runs the harness natively with the recorded values against the
+// real build of /repo. It returns (reproduced, transcript).
+func nativeReplay(g *Group, rf *ReplayFile, replayPath string) (bool, string) {
+	tmp, err := os.MkdirTemp("", "vreplay")
+	if err != nil {
+		return false, err.Error()
+	}
+	defer os.RemoveAll(tmp)
+	ov, _, err := buildOverlay(g, true)
+	if err != nil {
+		return false, err.Error()
+	}
+	base := filepath.Join(repoDir, g.Dir)
+	var tbl strings.Builder
+	for _, h := range g.Entries {
+		fmt.Fprintf(&tbl, "\t%q: %s,\n", h.Name, h.Name)
+	}
+	ts := strings.Replace(replayTestSrc, "PKGNAME", g.PkgName, 1)
+	ts = strings.Replace(ts, "HARNESSTABLE", tbl.String(), 1)
+	ov[filepath.Join(base, "zz_verif_replay_test.go")] = []byte(ts)
+	repl := map[string]string{}
+	i := 0
+	for virt, content := range ov {
+		i++
+		real := filepath.Join(tmp, fmt.Sprintf("f%d_%s", i, filepath.Base(virt)))
+		if err := os.WriteFile(real, content, 0o644); err != nil {
+			return false, err.Error()
+		}
+		repl[virt] = real
+	}
+	ob, _ := json.Marshal(map[string]interface{}{"Replace": repl})
+	ovp := filepath.Join(tmp, "overlay.json")
+	os.WriteFile(ovp, ob, 0o644)
+	pat := "./" + g.Dir
+	if g.Dir == "." {
+		pat = "."
+	}
+	cmd := exec.Command("go", "test", "-vet=off", "-count=1", "-timeout", "120s", "-run", "^TestVerifReplay$", "-overlay", ovp, pat)
+	cmd.Dir = repoDir
+	cmd.Env = append(goEnv(), "VERIF_REPLAY="+replayPath, "VERIF_HARNESS="+rf.Harness)
+	out, _ := cmd.CombinedOutput()
+	o := string(out)
+	switch rf.Kind {
+	case "assert":
+		return strings.Contains(o, "VASSERT "+rf.ID), o
+	case "panic":
+		if !strings.Contains(o, "VREPLAY-PANIC") && !strings.Contains(o, "panic:") && !strings.Contains(o, "fatal error:") {
+			return false, o
+		}
+		if strings.Contains(o, "VASSUME-VIOLATED") || strings.Contains(o, "VASSERT ") {
+			return false, o
+		}
+		return strings.Contains(o, panicKey(rf.ID)), o
+	}
+	return false, o
+}
+
+// ---------------------------------------------------------------------------
+// evidence
+
+type Evidence struct {
+	PropertyID  string                 `json:"property_id"`
+	Tier        string                 `json:"tier"`
+	Seed        int                    `json:"seed"`
+	Level       string                 `json:"level"`
+	Coverage    map[string]interface{} `json:"coverage"`
+	Assumptions []string               `json:"assumptions"`
+	WallS       float64                `json:"wall_s"`
+	Violations  int                    `json:"violations"`
+}
+
+func srcHash(prog *ssa.Program, fn *ssa.Function, cache map[string][]byte) string {
+	syn := fn.Syntax()
+	if syn == nil {
+		return ""
+	}
+	p0 := prog.Fset.Position(syn.Pos())
+	p1 := prog.Fset.Position(syn.End())
+	if !p0.IsValid() || p0.Filename == "" {
+		return ""
+	}
+	b, ok := cache[p0.Filename]
+	if !ok {
+		b, _ = os.ReadFile(p0.Filename)
+		cache[p0.Filename] = b
+	}
+	if p1.Offset > len(b) || p0.Offset > p1.Offset {
+		return ""
+	}
+	h := sha1.Sum(b[p0.Offset:p1.Offset])
+	return fmt.Sprintf("%x", h[:4])
+}
+
+// ---------------------------------------------------------------------------
+
+type entryRun struct {
+	g    *Group
+	ld   *Loaded
+	hs   *HarnessSpec
+	res  *HarnessResult
+	viol []Violation
+	inc  []string
+}
+
+func cmdRun(args []string) int {
+	fs := flag.NewFlagSet("run", flag.ExitOnError)
+	tier := fs.String("tier", envOr("VERIF_TIER", "quick"), "quick|thorough")
+	only := fs.String("only", "", "run only harnesses whose name contains this")
+	verbose := fs.Bool("v", false, "verbose")
+	noEvidence := fs.Bool("no-evidence", false, "do not write the evidence file")
+	noReplay := fs.Bool("no-replay", false, "do not replay counterexamples natively")
+	smtlog := fs.String("smtlog", "", "log SMT of worker 0 to file")
+	jobs := fs.Int("j", runtime.NumCPU(), "worker slots")
+	if len(args) < 1 {
+		fmt.Println("usage: vcheck run <PROPERTY> [--tier quick|thorough]")
+		return 2
+	}
+	prop := args[0]
+	fs.Parse(args[1:])
+	if *tier != "quick" && *tier != "thorough" {
+		*tier = "quick"
+	}
+	tierN := 0
+	if *tier == "thorough" {
+		tierN = 1
+	}
+	seed, _ := strconv.Atoi(os.Getenv("VERIF_SEED"))
+	t0 := time.Now()
+	groups, err := discover()
+	if err != nil {
+		fmt.Printf("INCONCLUSIVE property=%s reason=harness discovery failed: %v\n", prop, err)
+		return 2
+	}
+	var sel []*entryRun
+	var selGroups []*Group
+	for _, g := range groups {
+		used := false
+		for _, hs := range g.Entries {
+			if contains(hs.Props, prop) && contains(hs.Tiers, *tier) && (*only == "" || strings.Contains(hs.Name, *only)) {
+				sel = append(sel, &entryRun{g: g, hs: hs})
+				used = true
+			}
+		}
+		if used {
+			selGroups = append(selGroups, g)
+		}
+	}
+	if len(sel) == 0 {
+		fmt.Printf("INCONCLUSIVE property=%s reason=no harness registered for this property/tier\n", prop)
+		return 2
+	}
+	sort.Slice(sel, func(i, j int) bool { return sel[i].hs.Name < sel[j].hs.Name })
+	// load groups concurrently
+	loaded := map[*Group]*Loaded{}
+	var lmu sync.Mutex
+	var lwg sync.WaitGroup
+	var loadErrs []string
+	for _, g := range selGroups {
+		lwg.Add(1)
+		go func(g *Group) {
+			defer lwg.Done()
+			ld, err := load(g)
+			lmu.Lock()
+			defer lmu.Unlock()
+			if err != nil {
+				loadErrs = append(loadErrs, fmt.Sprintf("%s: %v", g.Dir, err))
+				return
+			}
+			loaded[g] = ld
+		}(g)
+	}
+	lwg.Wait()
+	if len(loadErrs) > 0 {
+		fmt.Printf("INCONCLUSIVE property=%s reason=harness does not load against the current tree: %s\n", prop, strings.Join(loadErrs, " | "))
+		return 2
+	}
+	// run entries with a slot budget
+	slots := make(chan struct{}, *jobs)
+	for i := 0; i < *jobs; i++ {
+		slots <- struct{}{}
+	}
+	var slotMu sync.Mutex
+	var wg sync.WaitGroup
+	for _, er := range sel {
+		er.ld = loaded[er.g]
+		fn := er.ld.pkg.Func(er.hs.Name)
+		if fn == nil {
+			er.inc = append(er.inc, er.hs.Name+": function not found in package")
+			continue
+		}
+		inits, ierr := initFuncs(er.ld.prog, er.g.Inits)
+		er.inc = append(er.inc, ierr...)
+		nw := er.hs.Workers
+		if nw > *jobs {
+			nw = *jobs
+		}
+		wg.Add(1)
+		go func(er *entryRun, fn *ssa.Function, inits []*ssa.Function, nw int) {
+			defer wg.Done()
+			slotMu.Lock()
+			for i := 0; i < nw; i++ {
+				<-slots
+			}
+			slotMu.Unlock()
+			defer func() {
+				for i := 0; i < nw; i++ {
+					slots <- struct{}{}
+				}
+			}()
+			qms := 20000
+			if tierN == 1 {
+				qms = 120000
+			}
+			if er.hs.QueryMs > 0 {
+				qms = er.hs.QueryMs
+			}
+			to := 900
+			if tierN == 1 {
+				to = 3600
+			}
+			if er.hs.TimeoutS > 0 {
+				to = er.hs.TimeoutS
+			}
+			opts := RunOpts{Workers: nw, MaxSteps: er.hs.Steps, Tier: tierN, Verbose: *verbose, SolverBin: []string{"z3", "-in", "-smt2"},
+				TimeoutMs: qms, Deadline: time.Now().Add(time.Duration(to) * time.Second), MaxSwitch: er.hs.Switches, SmtLog: *smtlog}
+			er.res = exploreHarness(er.ld.prog, fn, inits, opts)
+			er.viol, er.inc = classify(er.res, er.hs.Policy)
+			fmt.Fprintf(os.Stderr, "  %-44s paths %-6d queries %-7d solver %6.1fs wall %6.1fs viol %d %s\n", er.hs.Name, er.res.Paths, er.res.Queries, er.res.SolverS, er.res.WallS, len(er.viol), strings.Join(er.inc, "; "))
+		}(er, fn, inits, nw)
+	}
+	wg.Wait()
+
+	// collect
+	known := loadKnown()
+	var inconclusive []string
+	exit := 0
+	nviol := 0
+	knownPrinted := map[string]bool{}
+	funcsAll := map[string]string{}
+	hashCache := map[string][]byte{}
+	var harnessSummaries []interface{}
+	var samples []interface{}
+	tot := struct{ paths, nontriv, queries, assertQ, sat, unsat, unknown int; solverS float64 }{}
+	reachAll := map[string]int{}
+	var boundsAll, assumesAll, stubsAll, scaledAll []string
+	seenG := map[*Group]bool{}
+	for _, er := range sel {
+		inconclusive = append(inconclusive, er.inc...)
+		if !seenG[er.g] {
+			seenG[er.g] = true
+			boundsAll = append(boundsAll, er.g.Bounds...)
+			assumesAll = append(assumesAll, er.g.Assumes...)
+			stubsAll = append(stubsAll, er.g.Stubs...)
+			if er.ld != nil {
+				scaledAll = append(scaledAll, er.ld.scaled...)
+			}
+		}
+		if er.res == nil {
+			continue
+		}
+		r := er.res
+		tot.paths += r.Paths
+		tot.nontriv += r.Nontriv
+		tot.queries += r.Queries
+		tot.assertQ += r.AssertQ
+		tot.sat += r.Sat
+		tot.unsat += r.Unsat
+		tot.unknown += r.Unknown
+		tot.solverS += r.SolverS
+		for k, v := range r.Reach {
+			reachAll[er.hs.Name+"/"+k] += v
+		}
+		for _, b := range er.hs.Bounds {
+			boundsAll = append(boundsAll, er.hs.Name+": "+b)
+		}
+		harnessSummaries = append(harnessSummaries, r)
+		for _, s := range r.Samples {
+			if len(samples) < 12 {
+				samples = append(samples, s)
+			}
+		}
+		for _, fname := range r.Funcs {
+			funcsAll[fname] = ""
+		}
+		// violations: dedupe per (harness, id), replay the first of each
+		seenID := map[string]bool{}
+		for _, v := range er.viol {
+			key := v.Harness + "|" + v.ID
+			isKnown := false
+			for _, k := range known.Findings {
+				if k.matches(prop, v) {
+					isKnown = true
+					kk := k.Harness + "|" + k.ID + "|" + k.Text
+					if !knownPrinted[kk] {
+						knownPrinted[kk] = true
+						fmt.Printf("KNOWN-FINDING: property=%s %s [%s %s]\n", prop, k.Text, k.Harness, k.ID)
+					}
+				}
+			}
+			if isKnown || seenID[key] {
+				continue
+			}
+			seenID[key] = true
+			rf := &ReplayFile{Property: prop, Harness: v.Harness, Dir: er.g.Dir, Kind: v.Kind, ID: v.ID, Mode: er.hs.Replay, Tier: tierN,
+				Values: v.Values, Names: v.Names, AllVars: v.AllVars, Events: v.Events}
+			rdir := filepath.Join(verifDir, "replays", prop)
+			os.MkdirAll(rdir, 0o755)
+			rp := filepath.Join(rdir, fmt.Sprintf("%s-%s.json", v.Harness, sanitize(v.ID)))
+			if len(rp) > 200 {
+				rp = rp[:190] + ".json"
+			}
+			rb, _ := json.MarshalIndent(rf, "", " ")
+			os.WriteFile(rp, rb, 0o644)
+			reproduced := true
+			note := ""
+			if er.hs.Replay == "native" && !*noReplay {
+				ok, out := nativeReplay(er.g, rf, rp)
+				reproduced = ok
+				os.WriteFile(strings.TrimSuffix(rp, ".json")+".native.log", []byte(out), 0o644)
+				if !ok {
+					note = " (native replay did NOT reproduce: see " + strings.TrimSuffix(rp, ".json") + ".native.log)"
+				}
+			} else if er.hs.Replay == "symbolic" {
+				note = " (thread-mode harness: schedule replayed symbolically with `vcheck replay`)"
+			}
+			if reproduced {
+				nviol++
+				exit = 1
+				fmt.Printf("VIOLATION property=%s replay=%s harness=%s %s=%s%s\n", prop, rp, v.Harness, v.Kind, v.ID, note)
+				if len(v.Events) > 0 {
+					fmt.Printf("  events: %s\n", strings.Join(v.Events, " "))
+				}
+			} else {
+				inconclusive = append(inconclusive, fmt.Sprintf("ENGINE-MISMATCH %s %s: counterexample not reproduced natively%s", v.Harness, v.ID, note))
+			}
+		}
+	}
+	// functions encoded with source hashes
+	var funcsList []string
+	for _, er := range sel {
+		if er.res == nil {
+			continue
+		}
+		for _, m := range er.ld.prog.AllPackages() {
+			_ = m
+		}
+	}
+	for _, er := range sel {
+		if er.ld == nil || er.res == nil {
+			continue
+		}
+		want := map[string]bool{}
+		for _, f := range er.res.Funcs {
+			want[f] = true
+		}
+		for fn := range ssautil.AllFunctions(er.ld.prog) {
+			if want[fn.String()] && funcsAll[fn.String()] == "" {
+				h := ""
+				if fn.Pkg != nil && strings.Contains(fn.Pkg.Pkg.Path(), "dragonboat") {
+					h = srcHash(er.ld.prog, fn, hashCache)
+				}
+				if h == "" {
+					h = "-"
+				}
+				funcsAll[fn.String()] = h
+			}
+		}
+	}
+	nrepo := 0
+	for f, h := range funcsAll {
+		if strings.Contains(f, "VHarness_") || strings.Contains(f, ".v") && strings.Contains(f, "zz_verif") {
+			continue
+		}
+		if h != "-" && h != "" {
+			nrepo++
+			funcsList = append(funcsList, f+"@"+h)
+		}
+	}
+	sort.Strings(funcsList)
+	wall := time.Since(t0).Seconds()
+	if len(inconclusive) > 0 && exit == 0 {
+		exit = 2
+	}
+	if !*noEvidence && *only == "" {
+		expl := fmt.Sprintf("Bounded symbolic execution of the real Go code (go/ssa of %s's current working tree, harnesses injected by overlay) decided by z3: %d harness entr(ies), %d paths explored, %d solver queries (%d assertion queries; %d sat / %d unsat / %d unknown), solver time %.1fs. Every assertion on every explored path was discharged as unsat for all values of the symbolic inputs within the bounds listed under 'bounds'; nothing is sampled. Outside the bounds nothing is claimed.",
+			repoDir, len(harnessSummaries), tot.paths, tot.queries, tot.assertQ, tot.sat, tot.unsat, tot.unknown, tot.solverS)
+		if nviol > 0 {
+			expl += fmt.Sprintf(" %d violation(s) were found and replayed.", nviol)
+		}
+		if len(inconclusive) > 0 {
+			expl += " RUN INCONCLUSIVE: " + strings.Join(inconclusive, "; ")
+		}
+		if len(samples) == 0 {
+			samples = append(samples, "no symbolic path ended in 'return' (see outcomes)")
+		}
+		ev := Evidence{PropertyID: prop, Tier: *tier, Seed: seed, Level: "other", WallS: wall, Violations: nviol,
+			Assumptions: append(append([]string{}, assumesAll...), stubsAll...),
+			Coverage: map[string]interface{}{
+				"explanation":         expl,
+				"evaluations":         tot.paths,
+				"distinct_nontrivial": tot.nontriv,
+				"rule":                "one evaluation = one symbolic path of a harness entry (a set of concrete inputs characterised by its path condition); distinct by construction (path conditions are pairwise disjoint); non-trivial = the path condition constrains at least one symbolic input",
+				"samples":             samples,
+				"exhaustive":          len(inconclusive) == 0,
+				"functions_encoded":   funcsList,
+				"functions_encoded_n": nrepo,
+				"bounds":              boundsAll,
+				"scaled_constants":    scaledAll,
+				"stubs":               stubsAll,
+				"queries":             map[string]int{"total": tot.queries, "assertion": tot.assertQ, "sat": tot.sat, "unsat": tot.unsat, "unknown": tot.unknown},
+				"solver_time_s":       tot.solverS,
+				"solver":              "z3 (z3 -in -smt2), incremental push/pop per worker",
+				"reach_labels":        reachAll,
+				"harnesses":           harnessSummaries,
+				"inconclusive":        inconclusive,
+				"known_findings":      len(knownPrinted),
+			}}
+		if ev.Assumptions == nil {
+			ev.Assumptions = []string{}
+		}
+		os.MkdirAll(filepath.Join(verifDir, "evidence"), 0o755)
+		b, _ := json.MarshalIndent(ev, "", " ")
+		os.WriteFile(filepath.Join(verifDir, "evidence", prop+".json"), b, 0o644)
+	}
+	for _, s := range inconclusive {
+		fmt.Printf("INCONCLUSIVE property=%s reason=%s\n", prop, s)
+	}
+	fmt.Printf("RESULT property=%s tier=%s harnesses=%d paths=%d queries=%d solver=%.1fs wall=%.1fs violations=%d known=%d exit=%d\n",
+		prop, *tier, len(sel), tot.paths, tot.queries, tot.solverS, wall, nviol, len(knownPrinted), exit)
+	return exit
+}
+
+func cmdReplay(args []string) int {
+	if len(args) < 1 {
+		fmt.Println("usage: vcheck replay <replay.json>")
+		return 2
+	}
+	b, err := os.ReadFile(args[0])
+	if err != nil {
+		fmt.Println(err)
+		return 2
+	}
+	var rf ReplayFile
+	if err := json.Unmarshal(b, &rf); err != nil {
+		fmt.Println(err)
+		return 2
+	}
+	groups, err := discover()
+	if err != nil {
+		fmt.Println(err)
+		return 2
+	}
+	g := groups[rf.Dir]
+	if g == nil {
+		fmt.Println("no harness group", rf.Dir)
+		return 2
+	}
+	abs, _ := filepath.Abs(args[0])
+	if rf.Mode == "native" {
+		ok, out := nativeReplay(g, &rf, abs)
+		fmt.Println(out)
+		if ok {
+			fmt.Printf("REPRODUCED property=%s harness=%s %s=%s (native run of the harness against the real build)\n", rf.Property, rf.Harness, rf.Kind, rf.ID)
+			return 1
+		}
+		fmt.Println("NOT-REPRODUCED")
+		return 0
+	}
+	// symbolic replay: pin every variable to its model value and re-execute
+	ld, err := load(g)
+	if err != nil {
+		fmt.Println(err)
+		return 2
+	}
+	pin := map[int]uint64{}
+	for name, v := range rf.AllVars {
+		if i := strings.LastIndex(name, "!"); i >= 0 {
+			k, _ := strconv.Atoi(name[i+1:])
+			pin[k] = v
+		}
+	}
+	var hs *HarnessSpec
+	for _, h := range g.Entries {
+		if h.Name == rf.Harness {
+			hs = h
+		}
+	}
+	if hs == nil {
+		fmt.Println("no such harness", rf.Harness)
+		return 2
+	}
+	inits, _ := initFuncs(ld.prog, g.Inits)
+	res := exploreHarness(ld.prog, ld.pkg.Func(rf.Harness), inits, RunOpts{Workers: 1, MaxSteps: hs.Steps, Tier: rf.Tier, SolverBin: []string{"z3", "-in", "-smt2"}, TimeoutMs: 60000, Pin: pin, MaxSwitch: hs.Switches, Verbose: true})
+	for _, v := range res.Viol {
+		fmt.Printf("events: %s\n", strings.Join(v.Events, " "))
+		if v.ID == rf.ID {
+			fmt.Printf("REPRODUCED property=%s harness=%s %s=%s (symbolic re-execution with every variable pinned)\n", rf.Property, rf.Harness, rf.Kind, rf.ID)
+			return 1
+		}
+	}
+	fmt.Println("NOT-REPRODUCED", res.Outcomes)
+	return 0
+}
+
+func cmdList() int {
+	groups, err := discover()
+	if err != nil {
+		fmt.Println(err)
+		return 2
+	}
+	var ds []string
+	for d := range groups {
+		ds = append(ds, d)
+	}
+	sort.Strings(ds)
+	for _, d := range ds {
+		g := groups[d]
+		fmt.Printf("%s (package %s) inits=%v scales=%v\n", d, g.PkgName, g.Inits, g.Scales)
+		for _, h := range g.Entries {
+			fmt.Printf("   %-50s props=%v tiers=%v\n", h.Name, h.Props, h.Tiers)
+		}
+	}
+	return 0
+}
+
+func main() {
+	if len(os.Args) < 2 {
+		fmt.Println("usage: vcheck run|replay|list|selftest ...")
+		os.Exit(2)
+	}
+	switch os.Args[1] {
+	case "run":
+		os.Exit(cmdRun(os.Args[2:]))
+	case "replay":
+		os.Exit(cmdReplay(os.Args[2:]))
+	case "list":
+		os.Exit(cmdList())
+	default:
+		fmt.Println("unknown command", os.Args[1])
+		os.Exit(2)
 	}
 }
